@@ -548,8 +548,11 @@ def run(ctx, replay_lines=None):
                 sig = "parse:error-text-depends-on-heap-activity"
                 if sig not in reported:
                     reported.add(sig)
+                    ge, re_ = got.split(), ref_ev.split()
+                    k = next((j for j in range(min(len(ge), len(re_))) if ge[j] != re_[j]), min(len(ge), len(re_)))
                     ctx.violation(sig, {"kind": "heap-activity", "lines": [lines[first[ti]], l], "expected_events": ref_ev, "observed_events": got[:600]},
-                                  what="same bytes, error read after a collection and unrelated allocations: %s instead of %s (%s)" % (got[-120:], ref_ev[-120:], l[:120]))
+                                  what="same bytes, error read after a collection and unrelated allocations: event %d is %s instead of %s (%s)" %
+                                       (k, (ge[k] if k < len(ge) else "<missing>")[:120], (re_[k] if k < len(re_) else "<missing>")[:120], l[:120]))
 
     # (E0b) digit separators: a numeric literal with `_` inserted at ANY position either is no longer a number (symbol / error) or reads as
     #       exactly the value of the separator-free literal (bit for bit) -- reading data must not depend on how the digits are grouped
